@@ -83,6 +83,9 @@ structure St (α : Type) where
   turnCount : Nat := 0
   nextUid : Nat := 1
   trace : List (Ev α) := []        -- newest last
+  /-- the run's random generator as far as `DispelOrder_RANDOM` uses it: the order in which the
+  shuffle leaves the candidates (positions into the candidate list); a runtime choice, any value -/
+  shuffle : List Nat := []
 
 inductive Op (α : Type)
   | add (t : Int) (d : Desc α)
@@ -91,7 +94,7 @@ inductive Op (α : Type)
   | removeSelf (t : Int) (uid : Nat)
   | extDur (t : Int) (name : Nat) (n : Int)
   | extCnt (t : Int) (name : Nat) (n : Int)
-  | dispel (t : Int) (status : Nat) (order : Nat) (count : Int)   -- order 2 first added, 1 last added
+  | dispel (t : Int) (status : Nat) (order : Nat) (count : Int)   -- order 2 first added, 1 last added, 3 random
   | tick (t : Int) (phase : Nat)     -- 0 turn start, 1 phase 1, 2 action end, 3 phase 2
   | instAddProp (t : Int) (uid : Nat) (p : Nat) (x : α)
 
@@ -289,6 +292,26 @@ def dispelIdx (l : List (Inst α)) (status : Nat) (order : Nat) (count : Int) : 
   else if order == 1 then (cand.reverse.take n)  -- DispelOrder_LAST_ADDED
   else []
 
+/-- keep the first occurrence of every element -/
+def uniq : List Nat → List Nat
+  | [] => []
+  | a :: l => a :: (uniq l).filter (· != a)
+
+/-- positions of the instances a dispel of `status` may remove -/
+def dispelCand (l : List (Inst α)) (status : Nat) : List Nat :=
+  (List.range l.length).filter fun k =>
+    match l[k]? with
+    | some i => (cfgOf cat i.name).status == status && (cfgOf cat i.name).canDispel
+    | none => false
+
+/-- `dispelIDs` for all three orders; for the random order the first `n` candidates in the order
+the shuffle left them (positions that are no candidate, and repetitions, are ignored) -/
+def dispelSel (l : List (Inst α)) (status : Nat) (order : Nat) (count : Int) (shuffle : List Nat) : List Nat :=
+  if order == 3 then
+    let n : Nat := if count ≤ 0 then l.length else count.toNat
+    (uniq (shuffle.filterMap fun p => (dispelCand cat l status)[p]?)).take n
+  else dispelIdx cat l status order count
+
 /-- one manager operation, given `rec` for the operations issued by listeners -/
 def execWith (rec : St α → Op α → Option (St α)) (s : St α) : Op α → Option (St α)
   | .add t d =>
@@ -347,7 +370,7 @@ def execWith (rec : St α → Op α → Option (St α)) (s : St α) : Op α → 
         (l.filter fun m => m.name == name && m.count ≤ 0)
   | .dispel t status order count =>
     let l := s.targets t
-    let idx := dispelIdx cat l status order count
+    let idx := dispelSel cat l status order count s.shuffle
     let keep := (List.range l.length).filterMap fun k => if idx.contains k then none else l[k]?
     let gone := (List.range l.length).filterMap fun k => if idx.contains k then l[k]? else none
     emitDispel cat rec (setT s t keep) t gone
